@@ -19,16 +19,21 @@ CONSTANTS MaxPresent,     \* at most this many file slots are populated
           MaxArgs,        \* length bound of a file list
           RootFixed,      \* TRUE: filter_entry exempts the root (repaired code); FALSE: as found
           ReadFailCounted, \* TRUE: format-all counts a read failure (repaired code); FALSE: as found
-          DetWalk         \* TRUE: one fixed directory order (scenario generation); FALSE: any readdir order
+          DetWalk,        \* TRUE: one fixed directory order (scenario generation); FALSE: any readdir order
+          LinkFollowed    \* FALSE: format-all skips symbolic links (the code: walkdir's file_type); TRUE: follows them (bin/selftest)
 
 (***************************************************************************)
 (* The static shape of the working directory `w` (cwd of the process).     *)
 (***************************************************************************)
 Dirs  == {"w", "w/s", "w/.g", "w/x.typ", "w/.r", "w/.r/s"}
 Slots == {"w/a.typ", "w/b.typ", "w/n.txt", "w/.h.typ", "w/s/c.typ", "w/.g/e.typ", "w/x.typ/f.typ",
-          "w/.r/k.typ", "w/.r/s/m.typ"}
+          "w/.r/k.typ", "w/.r/s/m.typ", "w/l.typ"}
+(* `w/l.typ` exists only as a SYMBOLIC LINK (class L) to the file in the hidden directory, `.g/e.typ`: a name that looks
+   eligible for format-all, pointing at a file that is not *)
+LinkSlot == "w/l.typ"
+LinkTarget == "w/.g/e.typ"
 Parent == [e \in Dirs \cup Slots |->
-             CASE e \in {"w/a.typ", "w/b.typ", "w/n.txt", "w/.h.typ", "w/s", "w/.g", "w/x.typ", "w/.r"} -> "w"
+             CASE e \in {"w/a.typ", "w/b.typ", "w/n.txt", "w/.h.typ", "w/s", "w/.g", "w/x.typ", "w/.r", "w/l.typ"} -> "w"
                [] e = "w/s/c.typ" -> "w/s"   [] e = "w/.g/e.typ" -> "w/.g"   [] e = "w/x.typ/f.typ" -> "w/x.typ"
                [] e \in {"w/.r/k.typ", "w/.r/s"} -> "w/.r"   [] e = "w/.r/s/m.typ" -> "w/.r/s"
                [] e = "w" -> "w"]
@@ -42,7 +47,7 @@ Under(root, e) == root \in Anc(e)
 (* a hidden component strictly below the root, up to and including e itself *)
 HiddenBelow(root, e) == \E x \in {e} \cup Anc(e) : x \in HiddenName /\ root \in Anc(x)
 
-Classes == {"F", "U", "E", "X", "A"}
+Classes == {"F", "U", "E", "X", "A", "L"}
 
 (***************************************************************************)
 (* Invocations.                                                            *)
@@ -84,7 +89,9 @@ NoInv == [kind |-> "none", mode |-> "none"]
 Init == /\ \E P \in SUBSET Slots :
              /\ Cardinality(P) <= MaxPresent
              /\ \E g \in [P -> Classes \ {"A"}] :
-                  fs = [s \in Slots |-> [cls |-> IF s \in P THEN g[s] ELSE "A", ver |-> 0]]
+                  /\ \A x \in P : (g[x] = "L") <=> (x = LinkSlot)              \* that slot is a link, nothing else is
+                  /\ LinkSlot \in P => LinkTarget \in P                      \* a link has a target
+                  /\ fs = [s \in Slots |-> [cls |-> IF s \in P THEN g[s] ELSE "A", ver |-> 0]]
         /\ fs0 = fs /\ fs1 = fs
         /\ inv = NoInv /\ pc = "start" /\ run = 1
         /\ todo = <<>> /\ walk = {} /\ visited = {}
@@ -135,8 +142,15 @@ WalkStep ==
        THEN /\ walk' = rest /\ UNCHANGED <<fs, status, errors, visited>>        \* pruned, not descended into
        ELSE IF e \in Dirs
        THEN /\ walk' = rest \cup Children(e) /\ UNCHANGED <<fs, status, errors, visited>>
-       ELSE IF e \notin TypExt \/ fs[e].cls = "A"
-       THEN /\ walk' = rest /\ UNCHANGED <<fs, status, errors, visited>>        \* not a *.typ file / no such file
+       ELSE IF e \notin TypExt \/ fs[e].cls = "A" \/ (fs[e].cls = "L" /\ ~LinkFollowed)
+       THEN /\ walk' = rest /\ UNCHANGED <<fs, status, errors, visited>>        \* not a regular *.typ file / no such file
+       ELSE IF fs[e].cls = "L"                                                  \* (as mutated) read and written through the link
+       THEN /\ walk' = rest /\ visited' = visited \cup {e}
+            /\ IF fs[LinkTarget].cls = "X" THEN errors' = errors + 1 /\ UNCHANGED <<fs, status>>
+               ELSE IF fs[LinkTarget].cls \in {"E", "F"} THEN UNCHANGED <<fs, status, errors>>
+               ELSE /\ status' = "Changed"
+                    /\ fs' = (IF Check THEN fs ELSE [fs EXCEPT ![LinkTarget] = [cls |-> "F", ver |-> @.ver + 1]])
+                    /\ UNCHANGED errors
        ELSE /\ walk' = rest /\ visited' = visited \cup {e}
             /\ IF fs[e].cls = "X"
                THEN errors' = (IF ReadFailCounted THEN errors + 1 ELSE errors) /\ UNCHANGED <<fs, status>>
@@ -168,7 +182,8 @@ Named    == IF inv.kind = "list" THEN {inv.args[i] : i \in 1..Len(inv.args)} ELS
 Present(f) == fs0[f].cls # "A"
 Eligible == IF inv.kind = "list" THEN {f \in Named \cap Slots : Present(f)}
             ELSE IF inv.kind = "all"
-            THEN {f \in Slots : Present(f) /\ Under(inv.root.dir, f) /\ ~HiddenBelow(inv.root.dir, f) /\ f \in TypExt}
+            THEN {f \in Slots : Present(f) /\ fs0[f].cls # "L"               \* a regular file, not a symbolic link
+                                 /\ Under(inv.root.dir, f) /\ ~HiddenBelow(inv.root.dir, f) /\ f \in TypExt}
             ELSE {}
 IoFailure == \/ inv.kind = "list" /\ \E a \in Named : a \notin Slots \/ fs0[a].cls \in {"A", "X"}
              \/ inv.kind = "all" /\ \E f \in Eligible : fs0[f].cls = "X"
